@@ -135,6 +135,14 @@ def class_test(test, var, cls):
         if cs == ["CSeq"]:
             return "sequence"
         return any(ISINST[c][0 if scalar else 1] for c in cs)
+    # type(var.values) is list | == list
+    if (isinstance(test, ast.Compare) and len(test.ops) == 1 and isinstance(test.ops[0], (ast.Is, ast.Eq))
+            and isinstance(test.left, ast.Call) and is_name(test.left.func, "type") and len(test.left.args) == 1
+            and is_var_values(test.left.args[0], var)):
+        cs = py_classes(test.comparators[0])
+        if cs and len(cs) == 1 and cs[0] != "CSeq":
+            return ISINST[cs[0]][0 if scalar else 1]
+        return None
     # all(x == "_" for x in var.values[:] | var.values)
     if (isinstance(test, ast.Call) and is_name(test.func, "all") and len(test.args) == 1
             and isinstance(test.args[0], ast.GeneratorExp)):
